@@ -180,6 +180,20 @@ func Run(j *job.Job, s *job.Sink) {
 				ops = append(ops, op{"bad", m.Name + ".bad.yang", bt})
 			}
 			ops = append(ops, op{"load", m.Name + ".yang", t})
+			if r.Intn(8) == 0 {
+				// the same source name is offered once more with another text for the same
+				// module (a file edited and read again): whatever the text, it is a second
+				// module of that name and revision and must be refused, not taken for the
+				// one already there
+				k := strings.LastIndex(t, "}")
+				again := []string{
+					t[:k] + "  leaf zzedited { type string; }\n}\n",
+					t[:k] + "  frobnicate y;\n}\n",
+					strings.Replace(t, "{", "{ bogus-statement x;", 1),
+					t,
+				}[r.Intn(4)]
+				ops = append(ops, op{"bad", m.Name + ".yang", again})
+			}
 			if r.Intn(5) == 0 {
 				// a read between a load and the next processing run (the caller converts
 				// what is there so far): whatever it returns, it must not change what
